@@ -30,6 +30,7 @@ R2Sdef_dev_cylp_closed == {0}
 R2Sdef_dev_cylp_span == {0}
 R2Sdef_dev_cylp_fallback == {0}
 R2Sdef_dev_cyl_count == {0}
+R2Sdef_dev_cylp_staircase == {0}
 R2Sdef_t_cyl_ren == {144, 150, 170, 200, 256, 300}
 R2Sdef_t_cylp_ren == {144, 150, 170, 200, 256, 300}
 \* --- end generated ---
@@ -51,8 +52,12 @@ ValidDrop(d) ==
 ZSet == IF Family = "cyl" THEN {z \in Z0..(Z0 + Nz * DZ) : (z - Z0) % ZStep = 0} ELSE {Z0 + DZ \div 2}
 DropSetS == {d \in [zc : ZSet, r2 : R2S] : ValidDrop(d)}
 
+\* one fixed image: a staircase that starts on the axis and climbs one axial cell per radial cell, around and around the
+\* periodic axis -- face connected, NOT winding (it never meets itself), with an unwrapped axial extent of NrC cells
+Staircase == {<<i, i % NzC>> : i \in 0..(NrC - 2)} \cup {<<i, (i + 1) % NzC>> : i \in 0..(NrC - 2)}
 Init == IF Mode = "free"
         THEN \E m \in SUBSET Cells : InitWith(m) /\ drop = [zc |-> 0, r2 |-> 0]
+        ELSE IF Mode = "staircase" THEN InitWith(Staircase) /\ drop = [zc |-> 0, r2 |-> 0]
         ELSE \E d \in DropSetS : InitWith(InsideS(d)) /\ drop = d
 SRadial == Radial /\ UNCHANGED drop
 SStart == Start /\ UNCHANGED drop
